@@ -29,7 +29,7 @@ def gates(tier):
         "shapes": {c: 5 * k for c in ["eps_arc", "eps_cycle", "cyclic", "acyclic", "multi_initial", "multi_final", "parallel_arcs",
                                       "unreachable_state", "dead_state", "empty_language", "sr:Q", "sr:Log", "sr:Boolean",
                                       "sr:MaxTimes", "sr:Real", "sr:Float", "oracle-crosscheck", "zero_weight_arc", "tiny_weight", "input:iterator", "input:list",
-                                      "order:total-first", "order:epsremove-first", "order:calls-first"]},
+                                      "order:total-first", "order:epsremove-first", "order:calls-first", "scale:big-automaton"]},
         "min_hashseeds": 2,
     }
 
@@ -37,10 +37,15 @@ def gates(tier):
 def gen_case(rng, spec):
     from rv.gen import automata as GA
 
-    m = GA.gen_wfsa(rng, acyclic=rng.random() < 0.25)
-    maxlen = 4 if spec.get("tier") == "quick" else 5
-    if len(m["alphabet"]) >= 3:
-        maxlen -= 1
+    if rng.random() < 0.06:
+        # scale: 8-14 states, 6-10 symbols, a state with many arcs, 3+ initial / final states; labels of accepting walks
+        m = GA.gen_big_wfsa(rng, acyclic=rng.random() < 0.3)
+        maxlen = 2
+    else:
+        m = GA.gen_wfsa(rng, acyclic=rng.random() < 0.25)
+        maxlen = 4 if spec.get("tier") == "quick" else 5
+        if len(m["alphabet"]) >= 3:
+            maxlen -= 1
     R = rng.choice(SEMIRINGS)
     if R in ("Q", "Float", "Real") and rng.random() < 0.15:
         m["arcs"] = [[i, a, j, (-w if rng.random() < 0.4 else w)] for i, a, j, w in m["arcs"]]
@@ -58,7 +63,9 @@ def run_case(case, ctx):
     m, R = case["m"], case["R"]
     cls = GA.classify_wfsa(m)
     D = lib.dense_from_case(m, "Q" if R == "Log" else R)
-    strings = list(GG.strings_upto(m["alphabet"], case["maxlen"]))
+    strings = GA.case_strings(m, case["maxlen"], case["oseed"])
+    if m.get("big"):
+        ctx.shape["scale:big-automaton"] += 1
     try:
         want = {x: D(x) for x in strings}
         wtot = D.total()
